@@ -1117,6 +1117,15 @@ func (f *frame) bindLocals(env *Env, at *ssa.BasicBlock, phis map[*ssa.Phi]Val) 
 		}
 		dd := domDepth(b)
 		for i, ins := range b.Instrs {
+			if ph, isPhi := ins.(*ssa.Phi); isPhi && ph.Comment != "" {
+				if _, have := f.vals[ph]; have {
+					c, had := best[ph.Comment]
+					if !had || dd > c.depth || (dd == c.depth && i > c.idx) {
+						best[ph.Comment] = cand{ph, false, dd, i}
+					}
+				}
+				continue
+			}
 			dr, ok := ins.(*ssa.DebugRef)
 			if !ok {
 				continue
